@@ -208,8 +208,11 @@ def make_dataset(desc, df=None, forms=None, stubs=None):
     from torch_frame.config.text_tokenizer import TextTokenizerConfig
     from torch_frame.data import Dataset
     forms = forms or {}
-    df = G.build_df(desc) if df is None else df
+    df = build_df(desc) if df is None else df
     used = {}
+    for c in desc["cols"]:
+        if c["stype"] == "numerical" and c["name"] in df.columns:
+            used["num_backing:" + str(df[c["name"]].dtype)] = True
     names = [n for n in (forms.get("stype_order") or list(df.columns)) if n in df.columns]
     names += [n for n in df.columns if n not in names]
     by = {c["name"]: c for c in desc["cols"]}
@@ -243,7 +246,7 @@ def make_dataset(desc, df=None, forms=None, stubs=None):
     split_col = None
     if forms.get("split_col"):
         split_col = "__split__"
-        df = df.copy()
+        df = df.copy(deep=False)          # keep the memory layout of the existing columns
         df[split_col] = [i % 3 for i in range(len(df))]
     used["split_col"] = split_col is not None
     kw = dict(col_to_sep=sep, col_to_time_format=fmt, col_to_text_embedder_cfg=cfg(te),
@@ -270,6 +273,7 @@ def count_forms(d, used):
         f[f"{k}={v}"] = f.get(f"{k}={v}", 0) + 1
 
 
+
 REQUIRED_FORMS = ["sep=dict", "sep=single", "sep=partial-dict", "fmt=dict", "fmt=single", "fmt=partial-dict",
                   "split_col=True", "split_col=False", "stype_order=shuffled", "stype_order=frame-order",
                   "args=keyword", "args=positional", "device=none", "device=str", "device=device", "path=True",
@@ -279,3 +283,115 @@ REQUIRED_FORMS = ["sep=dict", "sep=single", "sep=partial-dict", "fmt=dict", "fmt
 def missing_forms(d, extra=()):
     f = d.get("forms", {})
     return [k for k in list(REQUIRED_FORMS) + list(extra) if f.get(k, 0) == 0]
+
+
+# ------------------------------------------------------------------ numeric representation
+NUM_BACKINGS = ["float64", "float32", "float16", "int64", "int32", "Float64", "Float32", "Int64"]
+REQUIRED_BACKINGS = ["num_backing:" + b + "=True" for b in NUM_BACKINGS]
+
+
+def draw_num_backing(rng, col):
+    """How pandas holds a numerical column (feature or target): every float / int width, numpy or nullable.
+    Integer backings need integer values (numpy ints also no missing cell); all payloads are exact in every one."""
+    cells = col["cells"]
+    ints = all(c is None or (not isinstance(c, str) and float(c) == int(c)) for c in cells)
+    ok = ["float64", "float32", "float32", "float16", "Float64", "Float32"]
+    if ints:
+        ok += ["Int64", "Int64"]
+        if all(c is not None for c in cells):
+            ok += ["int64", "int32", "int64", "int32"]
+    col["num_dtype"] = rng.pick(ok)
+    return col
+
+
+def build_df(desc, col_order=None, index=None):
+    """dfgen.build_df + the numeric backings drawn by draw_num_backing"""
+    import pandas as pd
+    df = G.build_df(desc, index=index, col_order=col_order)
+    for c in desc["cols"]:
+        dt_ = c.get("num_dtype")
+        if c["stype"] == "numerical" and dt_ and dt_ != "float64" and c["name"] in df.columns:
+            if dt_[0].isupper():     # nullable extension dtype: missing is pd.NA
+                vals = [pd.NA if v is None else float(v) for v in c["cells"]]
+                df[c["name"]] = pd.Series(vals, index=df.index, dtype=dt_)
+            else:
+                df[c["name"]] = df[c["name"]].astype(dt_)
+    return df
+
+
+# ------------------------------------------------------------------ memory layouts of an equal DataFrame
+RESTRIDES = ["reverse-iloc", "reverse-getitem", "column-view", "c-block"]
+
+
+def restride(df, how):
+    """The SAME DataFrame (same labels, rows, columns, dtypes) held in a different memory layout: negative-stride
+    row views (df.iloc[::-1] / df[::-1] of the reversed frame), a non-contiguous column view of a wider frame
+    (big.iloc[:, ::2]), numeric columns that are strided columns of one C-ordered 2-D block."""
+    import numpy as np
+    import pandas as pd
+    if how == "reverse-iloc":
+        return df.iloc[::-1].copy().iloc[::-1]
+    if how == "reverse-getitem":
+        return df[::-1].copy()[::-1]
+    if how == "column-view":
+        parts = []
+        for c in df.columns:
+            parts += [df[c], df[c].rename(str(c) + "__pad")]
+        big = pd.concat(parts, axis=1).copy()
+        return big.iloc[:, ::2]
+    if how == "c-block":
+        groups = {}
+        for c in df.columns:
+            if isinstance(df[c].dtype, np.dtype) and df[c].dtype.kind in "fi":
+                groups.setdefault(str(df[c].dtype), []).append(c)
+        pieces = {}
+        for cols in groups.values():
+            arr = np.ascontiguousarray(df[cols].to_numpy())
+            blk = pd.DataFrame(arr, columns=cols, index=df.index, copy=False)
+            for k, c in enumerate(cols):
+                pieces[c] = blk.iloc[:, k:k + 1]
+        j = {c: i for i, c in enumerate(df.columns)}
+        out = pd.concat([pieces.get(c, df.iloc[:, j[c]:j[c] + 1]) for c in df.columns], axis=1)
+        out.index.name = df.index.name
+        return out
+    return df
+
+
+def aliasing_probe(ds, read_tf):
+    """After materialization: (1) write into the TensorFrame's numerical tensor / y and require the source DataFrame
+    unchanged; (2) write into the DataFrame's numerical columns (raw buffer where pandas exposes it, else the
+    public setter) and require the TensorFrame unchanged.  Returns a list of problems (empty = no aliasing)."""
+    import numpy as np
+    import torch_frame
+    probs = []
+    df, tf = ds.df, ds.tensor_frame
+    cols = [c for c in df.columns if isinstance(df[c].dtype, np.dtype) and df[c].dtype.kind == "f"
+            and ds.col_to_stype.get(c) == torch_frame.numerical]
+    if not cols or len(df) == 0:
+        return None
+    before_df = {c: df[c].to_numpy(copy=True) for c in cols}
+    # (1) tensor -> DataFrame
+    num = tf.feat_dict.get(torch_frame.numerical)
+    if num is not None:
+        num += 1000.0
+    if tf.y is not None and tf.y.is_floating_point():
+        tf.y += 1000.0
+    for c in cols:
+        if not np.array_equal(df[c].to_numpy(), before_df[c], equal_nan=True):
+            probs.append(f"writing into the TensorFrame changed DataFrame column {c!r}")
+    snap = read_tf(tf)
+    # (2) DataFrame -> tensor
+    for c in cols:
+        j = list(df.columns).index(c)
+        try:
+            buf = df[c].values
+            buf.setflags(write=True)
+            buf[...] = buf + 4096.0
+        except Exception:
+            try:
+                df.iloc[:, j] = df.iloc[:, j] + 4096.0
+            except Exception:
+                pass
+    if read_tf(tf) != snap:
+        probs.append("editing the DataFrame's numerical columns after materialize() changed the TensorFrame")
+    return probs
